@@ -19,6 +19,14 @@ pub fn instances(tier: &str) -> Vec<String> {
             }
             // two iterations exercise the beta / direction-update recurrences (BiCGSTAB's second step is thorough-only: slow)
             if tier != "thorough" && s != "bicgstab" && rhs == "nz" { v.push(format!("ok:solver={},n=2,pat=full,iters=2,rhs={}", s, rhs)); }
+            // n=3, two iterations: at n=2 the second Krylov iterate is already exact, so a wrong residual recurrence (QMR's `s`,
+            // BiCG's `r`) only shows from n=3 on.  BiCGSTAB: only the diagonal pattern finishes (55 s), thorough-only.
+            if rhs == "nz" {
+                if s != "bicgstab" {
+                    v.push(format!("ok:solver={},n=3,pat=upper,iters=2,rhs={}", s, rhs));
+                    if tier == "thorough" { v.push(format!("ok:solver={},n=3,pat=full,iters=2,rhs={}", s, rhs)); }
+                } else if tier == "thorough" { v.push(format!("ok:solver={},n=3,pat=diag,iters=2,rhs={}", s, rhs)); }
+            }
             v.push(format!("ok:solver={},n=1,pat=full,iters=1,rhs={}", s, rhs));
             v.push(format!("ok:solver={},n=1,pat=full,iters=2,rhs={}", s, rhs));
             if tier == "thorough" {
@@ -95,12 +103,12 @@ fn chain(solver: &str, k: usize, rr: Sym, bb: Sym, tol: Sym) -> bool {
     };
     let s_term = match node_of(num) { Node::Sqrt(t) => Sym::from_id(t), _ => return false };
     let ok = |p: Proof| p == Proof::Solver || p == Proof::Syntactic;
-    let mut all = ok(prove_eq(&format!("{}: Ok({}): the tested residual norm^2 equals ||b - A x||^2 of the returned x", solver, k), s_term, rr));
+    let mut all = ok(prove_eq(&format!("{}: Ok implies solved to the tolerance :: Ok({}): the tested residual norm^2 equals ||b - A x||^2 of the returned x", solver, k), s_term, rr));
     let one = den.const_val().map(|c| c == CVal::R(Rat::ONE)).unwrap_or(false);
     if one {
-        all &= ok(prove(&format!("{}: Ok({}): the norm of b was replaced by 1 only because b = 0", solver, k), eq(bb, z())));
+        all &= ok(prove(&format!("{}: Ok implies solved to the tolerance :: Ok({}): the norm of b was replaced by 1 only because b = 0", solver, k), eq(bb, z())));
     } else {
-        match node_of(den) { Node::Sqrt(t) => { all &= ok(prove_eq(&format!("{}: Ok({}): the test divides by ||b||", solver, k), Sym::from_id(t), bb)); all &= ok(prove(&format!("{}: Ok({}): ||b|| != 0 on this path", solver, k), ne(bb, z()))); } _ => return false }
+        match node_of(den) { Node::Sqrt(t) => { all &= ok(prove_eq(&format!("{}: Ok implies solved to the tolerance :: Ok({}): the test divides by ||b||", solver, k), Sym::from_id(t), bb)); all &= ok(prove(&format!("{}: Ok implies solved to the tolerance :: Ok({}): ||b|| != 0 on this path", solver, k), ne(bb, z()))); } _ => return false }
     }
     // abstract step on fresh values
     let (s2, n2, s, nn, v, t) = (Sym::var("S"), Sym::var("N2"), Sym::var("s"), Sym::var("n"), Sym::var("v"), Sym::var("t"));
@@ -134,7 +142,7 @@ pub fn body(inst: &str) {
             ]);
             if !chain(&solver, k, rr, bb, tol) {
                 // the stopping test is not of the recognised form: ask the solver for the goal directly
-                prove(&format!("{}: Ok({}) => true relative residual <= tol", solver, k), goal);
+                prove(&format!("{}: Ok implies solved to the tolerance :: Ok({}): true relative residual <= tol", solver, k), goal);
             }
             if k == 0 { let same = x.len() == n && (0..n).all(|i| x[i].same(x0[i])); prove(&format!("{}: Ok(0) leaves x untouched", solver), if same { B::True } else { B::False }); }
         }
